@@ -98,8 +98,10 @@ Definition rebuilt (s : st) : option cells :=
 Definition full_due (s : st) : bool :=
   full_needed s || match snaps s with [] => true | _ => false end.
 
-(* PBlocked: fsmSnapshot itself fails -- the TRUNCATE checkpoint is blocked by a reader (250 ms timeout) -- before
-   anything is staged, cleared or persisted *)
+(* PBlocked: fsmSnapshot itself fails -- the TRUNCATE checkpoint, of a full or of an incremental snapshot, is busy
+   because of a reader (250 ms timeout).  Nothing is persisted and nothing changes: the segment the attempt was
+   writing is cancelled, and every segment ALREADY in the staging directory (left by earlier attempts that were
+   not persisted) stays, because its frames are in the database file and nowhere else. *)
 Inductive outcome := POk | PNotInvoked | PFailBefore | PFailAfter | PBlocked.
 
 Inductive op :=
